@@ -1,12 +1,34 @@
 """C05: device-reported errors are surfaced, typed and not retried."""
-from lib import script
+from lib import script, apirun
 
-THEOREMS = ["C05_flag_error", "C05_not_retried", "C05_one_write"]
+THEOREMS = ["C05_flag_error", "C05_not_retried", "C05_one_write", "C05_api_wrapped"]
 
 
 def run(res, args):
     res.assumptions = ["error classes are obtained with errors.Is on the Go side; message texts are never compared",
-                       "the register-API wrapping (Read*Register) is checked by C09"]
-    script.standard(res, args, "C05", "C05", THEOREMS,
-                    "Classes for C05: flags 0x01/0x02/0x04 x accessors {raw,uint,int,string} x boundary+random addresses x 0..8 trailing "
-                    "payload bytes, with async frames before the error frame, idle and busy; plus every flag byte 0x00..0xFF.")
+                       "the wrapped error's name part is observed as 'the message contains the register name'"]
+    r = script.standard(res, args, "C05", "C05", THEOREMS,
+                        "Classes for C05: flags 0x01/0x02/0x04 x accessors {raw,uint,int,string} x boundary+random addresses x 0..8 trailing "
+                        "payload bytes, with async frames before the error frame, idle and busy; plus every flag byte 0x00..0xFF.  Register "
+                        "API: every register of every distinct product list x the three flags x trailing payloads through Read*Register "
+                        "(error class, wrapped with the register name, total number of command frames).")
+    if r is None:
+        return
+    # the register-API part of the property
+    a = apirun.run(res.tier, res.seed, "C05")
+    app, nf = a["summ"].get("C05", (0, 0))
+    nm = a["summ"].get("MISMATCH", (0, 0))[1]
+    res.cov["evaluations"] += len(a["lines"])
+    res.cov["api_cases"] = len(a["lines"])
+    res.cov["api_error_reads_judged"] = app
+    res.cov["api_judge_failures"] = nf
+    res.cov["api_disagreements"] = nm
+    res.cov["api_samples"] = a["lines"][:: max(1, len(a["lines"]) // 3)][:3]
+    import re
+    for f in a["fails"].get("C05", [])[:10]:
+        line = a["byid"].get(f["case_id"], "")
+        res.add_violation("register API: " + f["what"], key="C05:api:%s" % re.sub(r"\d+", "N", f["what"])[:120], input=line,
+                          observed=a["implby"].get(f["case_id"], ""))
+    if nm and not a["fails"].get("C05"):
+        from lib.common import Broken
+        res.broken.append(Broken("correspondence Api model vs implementation (C05 cases): %d disagreements" % nm, "\n".join(a["mism"][:5])))
